@@ -217,7 +217,56 @@ def _sub_program(rng, tier: str, prop: str) -> dict:
     return sub
 
 
+def _twin_program(scn: dict, rng) -> dict:
+    """Another caller doing the same kind of work: same calls, sizes, byte order and chunking,
+    other data and other strings (what two workers of one reduction look like)."""
+    t = copy.deepcopy({k: v for k, v in scn.items() if k not in ("interleave", "predecessor")})
+    for c in t["calls"]:
+        if c["op"] in ("pix", "pix_bad"):
+            c["pix"]["seed"] = rng.randrange(1 << 32)
+            for e in c["runs"]:
+                e["psi"][0] = rng.uniform(0, 3)
+                e["filename"] = _gstr(rng, 12)
+        elif c["op"] in ("instrument", "sample"):
+            c["name"] = _gstr(rng, 12)
+    t["title"] = _gstr(rng, 30)
+    t.update(sink="mem", fname=None, faults={"mode": "none"}, prelude=None, reuse_builder=False,
+             recreate=False, permute_seed=None, preexist=None)
+    return t
+
+
+SWEEP_RUNS = 32  # 2 x 12 parts: tiny program, every line boundary; 2 x 4 parts: one big chunk, distinct lines
+
+
+def _sweep_scenario(i: int, tier: str, prop: str) -> dict:
+    """Enumerated interleavings for two canonical programs (all five builder calls; a tiny pixel
+    set written in several chunks, and 2048 pixels written as one 72 KiB chunk) x byte order:
+    every distinct source line and every write() of create() is a scheduling point once."""
+    import random
+
+    if i < 24:
+        variant, part, of = i % 2, i // 2, 12
+    else:
+        variant, part, of = 2 + i % 2, (i - 24) // 2, 4
+    rng = random.Random(977 + variant)
+    scn = generate(rng, tier, -1, prop, nested=True)
+    calls = [_gen_call(rng, k, tier) for k in ("instrument", "detpar", "pix", "sample", "dnd")]
+    pix = calls[2]
+    pix["runs"] = pix["runs"][:2]
+    pix["pix"]["n"] = 20 if variant < 2 else 2048
+    pix["n_dims"] = 4
+    calls[4]["meta"]["axes"]["n_bins"] = [2, 3, 1, 2]
+    scn.update(calls=calls, sink="mem", fname=None, title="sweep", byteorder=["little", "big"][variant % 2],
+               chunk=7 if variant < 2 else 2048, default_chunk=False, permute_seed=None, recreate=False,
+               reuse_builder=False, prelude=None, preexist=None, faults={"mode": "none"})
+    depth = ("early" if tier == "quick" else "all") if variant < 2 else ("sites" if tier == "quick" else "early")
+    scn["interleave"] = {"sweep": [part, of], "depth": depth, "other": _twin_program(scn, rng)}
+    return scn
+
+
 def generate(rng, tier: str, i: int, prop: str, nested: bool = False) -> dict:
+    if not nested and 0 <= i < SWEEP_RUNS:
+        return _sweep_scenario(i, tier, prop)
     kinds = ["pix", "instrument", "sample", "dnd", "detpar"]
     r = rng.random()
     if r < 0.25:
@@ -308,8 +357,9 @@ def generate(rng, tier: str, i: int, prop: str, nested: bool = False) -> dict:
             scn["predecessor"] = _sub_program(rng, tier, prop)
         if small and rng.random() < 0.12:
             # a second caller's whole create() lands between two lines of this create()
-            scn["interleave"] = {"frac": rng.random(), "other": _sub_program(rng, tier, prop),
-                                 "where": rng.choice(["line", "write"])}
+            scn["interleave"] = {"frac": rng.random(), "where": rng.choice(["line", "write", "site"]),
+                                 "other": _twin_program(scn, rng) if rng.random() < 0.5
+                                 else _sub_program(rng, tier, prop)}
     return scn
 
 
@@ -774,64 +824,110 @@ class SqwEngine(Engine):
         self._judge_other(oscn, ctx, sink.getvalue(), where)
         return True
 
-    def _interleaved(self, scn, ctx, fin):
-        """Two callers, two builders, two files: the second caller's whole create() runs at one
-        line boundary inside the first caller's create() (simulated thread switch; the line
-        ordinal comes from the scenario).  Both files must be what their own programs supplied."""
-        import scippneutron.io.sqw as sqw
-
-        other = scn["interleave"]["other"]
-        prefixes = (os.path.dirname(sqw.__file__) + os.sep,)
-        mem = dict(scn, sink="mem")
-        # counting pass: how many line events does this create() have?
-        at_write = scn["interleave"].get("where") == "write"
-        kind = "preempt_in_write" if at_write else "preempt_in_create"
+    def _count_points(self, mem, ctx, prefixes):
+        """Counting pass: line events, distinct source lines and write() calls of this create()."""
         counter = seams.Preemptor(prefixes, {})
+        counter.early_k = 12
         csink = seams.SimBytesIO(ctx=ctx)
         exc = counter.run(lambda: self._create(mem, ctx, csink, label="create_counting_pass"))
         if exc is not None:
-            return
-        total = csink.sim_writes if at_write else counter.ordinal
-        at = min(total - 1, int(scn["interleave"]["frac"] * total)) if total else 0
+            return None
+        return {"line": counter.ordinal, "site": len(counter.site_order), "write": csink.sim_writes,
+                "sites": counter.site_order, "early": counter.early}
+
+    def _interleave_once(self, mem, ctx, fin, other, where, at, totals, prefixes, tag):
+        """Two callers, two builders, two files: the second caller's whole create() runs while the
+        first caller is at one scheduling point of its own create(): a line boundary (by event
+        ordinal or by first execution of a distinct source line) or inside a write() on the sink
+        (I/O is where threads switch).  Both files must be what their own programs supplied."""
+        kind = {"line": "preempt_in_create", "site": "preempt_at_source_line", "write": "preempt_in_write"}[where]
+        total = totals[where]
         ctx.fault_configured(kind)
         sink_o = seams.SimBytesIO(ctx=ctx)
         state = {}
 
         def cb(frame):
-            where = "write" if at_write else f"{os.path.basename(frame.f_code.co_filename)}:{frame.f_code.co_name}"
-            ctx.log("preempt", where, at, total)
-            ctx.site("preempt@" + where)
+            if where == "write":
+                at_s = "write"
+            else:
+                at_s = f"{os.path.basename(frame.f_code.co_filename)}:{frame.f_code.co_name}"
+                state["line"] = f"{os.path.basename(frame.f_code.co_filename)}:{frame.f_lineno}"
+            ctx.log("preempt", at_s, where, at, total)
+            ctx.site("preempt@" + at_s)
             state["exc"] = self._create(other, ctx, sink_o, label="create_other_caller")
             state["ran"] = True
 
-        if at_write:
-            # this caller blocks in its at-th write(); the other caller's create() runs meanwhile
+        if where == "write":
             sink_m = seams.SimBytesIO(ctx=ctx, yield_at={at: cb})
             exc = self._create(mem, ctx, sink_m, label="create_preempted")
         else:
             sink_m = seams.SimBytesIO(ctx=ctx)
-            exc = seams.Preemptor(prefixes, {at: cb}).run(lambda: self._create(mem, ctx, sink_m, label="create_preempted"))
+            pre = seams.Preemptor(prefixes, {at: cb} if where == "line" else {},
+                                  site_points={at: cb} if where == "site" else None)
+            exc = pre.run(lambda: self._create(mem, ctx, sink_m, label="create_preempted"))
         if not state.get("ran"):
             ctx.probe("preemption_point_not_reached")
             return
         ctx.fault_fired(kind)
         ctx.probe("two_creates_interleaved")
+        desc = f"{where} {at}/{total}" + (f" = {state['line']}" if "line" in state else "")
+        hint = {"il_where": where, "il_at": at}
         if exc is not None:
-            ctx.violate("create_raised", f"[interleaved] create() raised {exc} when another caller's create() "
-                        f"ran at line event {at}/{total}", kind="interleaved_create_raised", exc=exc.name)
+            ctx.violate("create_raised", f"[interleaved{tag}] create() raised {exc} when another caller's create() "
+                        f"ran at {desc}", kind="interleaved_create_raised", exc=exc.name, _hint=hint)
             return
         oexc = state.get("exc")
         if oexc is not None and oexc.name != "_Unmodelable":
-            ctx.violate("create_raised", f"[interleaved] the other caller's create() raised {oexc}",
-                        kind="interleaved_create_raised", exc=oexc.name)
+            ctx.violate("create_raised", f"[interleaved{tag}] the other caller's create() raised {oexc} ({desc})",
+                        kind="interleaved_create_raised", exc=oexc.name, _hint=hint)
             return
+        n0 = len(ctx.violations)
         buf = sink_m.getvalue()
         dec = ref_sqw.decode_file(buf)
-        self._judge_structure(mem, ctx, fin, buf, dec, None, where=f"interleaved (pre-empted at {at}/{total})")
+        self._judge_structure(mem, ctx, fin, buf, dec, None, where=f"interleaved{tag} (pre-empted at {desc})")
         if self.prop == "C13":
-            self._judge_content(mem, ctx, fin, dec, where="interleaved (pre-empted caller)")
+            self._judge_content(mem, ctx, fin, dec, where=f"interleaved{tag} (pre-empted caller, {desc})")
         if oexc is None:
-            self._judge_other(other, ctx, sink_o.getvalue(), "interleaved (pre-empting caller)")
+            self._judge_other(other, ctx, sink_o.getvalue(), f"interleaved{tag} (pre-empting caller, {desc})")
+        for v in ctx.violations[n0:]:
+            v.setdefault("hint", {}).update(hint)
+
+    def _interleaved(self, scn, ctx, fin):
+        import scippneutron.io.sqw as sqw
+
+        il = scn["interleave"]
+        prefixes = (os.path.dirname(sqw.__file__) + os.sep,)
+        mem = dict(scn, sink="mem")
+        totals = self._count_points(mem, ctx, prefixes)
+        if totals is None:
+            return
+        if il.get("sweep"):
+            # enumeration: every distinct source line and every write() of this create() is used
+            # once as the scheduling point (this run covers the points k with k % of == part)
+            part, of = il["sweep"]
+            # small create(): EVERY line boundary (a loop body is a different state each time
+            # round); long create(): the first execution of every distinct source line
+            mode = il.get("depth", "sites")
+            if mode == "all":
+                lines = [("line", k) for k in range(totals["line"])]
+            elif mode == "early":
+                # the first 12 executions of every distinct source line (covers every round of the
+                # loops over blocks, rows and runs of a small program)
+                lines = [("line", k) for k in totals["early"]]
+            else:
+                lines = [("site", k) for k in range(totals["site"])]
+            ctx.probe("sweep_depth_" + mode)
+            pts = lines + [("write", k) for k in range(totals["write"])]
+            mine = [pt for n, pt in enumerate(pts) if n % of == part]
+            for where, at in mine:
+                self._interleave_once(mem, ctx, fin, il["other"], where, at, totals, prefixes, " sweep")
+            ctx.count("interleaving_points_enumerated", len(mine))
+            ctx.count("interleaving_points_total", len(pts) if part == 0 else 0)
+            return
+        where = il.get("where", "line")
+        total = totals[where]
+        at = il["at"] if "at" in il else (min(total - 1, int(il["frac"] * total)) if total else 0)
+        self._interleave_once(mem, ctx, fin, il["other"], where, at, totals, prefixes, "")
 
     def _prelude(self, scn, ctx):
         """A different builder whose create() is expected to be refused because of its content."""
@@ -1711,6 +1807,12 @@ def _shrink(self, scn, violation=None):
         c = copy.deepcopy(s)
         c["preexist"] = None
         yield c
+    hint = (violation or {}).get("hint") or {}
+    if s.get("interleave") and "il_where" in hint and (
+            s["interleave"].get("sweep") or s["interleave"].get("at") != hint["il_at"]):
+        c = copy.deepcopy(s)
+        c["interleave"] = {"where": hint["il_where"], "at": hint["il_at"], "other": s["interleave"]["other"]}
+        yield c
     for key in ("predecessor", "interleave"):
         if s.get(key):
             c = copy.deepcopy(s)
@@ -1721,7 +1823,7 @@ def _shrink(self, scn, violation=None):
                 c = copy.deepcopy(s)
                 del (c[key] if key == "predecessor" else c[key]["other"])["calls"][k]
                 yield c
-            if key == "interleave":
+            if key == "interleave" and "frac" in s[key]:
                 for fr in (0.0, 0.25, 0.5, 0.75):
                     if abs(s[key]["frac"] - fr) > 1e-9:
                         c = copy.deepcopy(s)
